@@ -348,3 +348,15 @@ package j5schema
 // nil safety depends on what the arbitrary callback leaves of the schema graph and is not swept.
 //@ func walkSchemaFields
 //@   requires walking != nil
+
+// ---- kind chain (C06, C18): a well-known-type scalar is a message on the wire ----------------------------
+// A scalar schema with a well-known type name stands for a message-kind proto field, so the J5 field
+// type it is given must be one whose conversion from Go yields a message value (date, decimal,
+// timestamp); anything else makes j5reflect hand protobuf-go a value of the wrong kind, which panics
+// in Message.Set. One assertion per well-known type, so that each can fail on its own.
+//@ spec func wireMessage(f *schema_j5pb.Field) bool = typeis(f.Type, *schema_j5pb.Field_Date) || typeis(f.Type, *schema_j5pb.Field_Decimal) || typeis(f.Type, *schema_j5pb.Field_Timestamp)
+//@ func wktSchema
+//@   assert at return#2 kind.timestamp: typeis(result0, *ScalarSchema) && wireMessage(as(*ScalarSchema, result0).Proto)
+//@   assert at return#3 kind.duration: typeis(result0, *ScalarSchema) && wireMessage(as(*ScalarSchema, result0).Proto)
+//@   assert at return#4 kind.date: typeis(result0, *ScalarSchema) && wireMessage(as(*ScalarSchema, result0).Proto)
+//@   assert at return#5 kind.decimal: typeis(result0, *ScalarSchema) && wireMessage(as(*ScalarSchema, result0).Proto)
